@@ -1161,7 +1161,11 @@ impl<'p, W, R, T> CompilationScope<'p, W, R, T> {
                     new_types.push(if let XType::Auto = t.as_ref() {
                         match args {
                             None => return Err(CompilationError::AutoSpecializationWithoutCall),
-                            Some(args) => self.type_of(&args[i])?,
+                            // `$` stands for the type of the argument in its position: there has to be one
+                            Some(args) => match args.get(i) {
+                                Some(arg) => self.type_of(arg)?,
+                                None => return Err(CompilationError::AutoSpecializationWithoutCall),
+                            },
                         }
                     } else {
                         t.clone()
